@@ -112,6 +112,9 @@ def contains(d, k): return k in d
 def ior(d, o):
     d |= o
     return d
+def upd_in_loop(t, o):
+    for _ in t:
+        t.update(o)
 def bor(a, b): return a | b
 def band(a, b): return a & b
 def bsub(a, b): return a - b
@@ -195,6 +198,60 @@ func (r *runner) coll() starlark.Value {
 		return r.dict
 	}
 	return r.set
+}
+
+// refused: the collection is the *argument* of an update that cannot complete because the receiver may not be
+// changed (frozen, being iterated, or the collection itself). The call must leave the argument as it was and
+// as usable as before: rewriting an existing entry right afterwards must succeed.
+func (r *runner) refused(op Op) error {
+	bad := func(format string, args ...any) error {
+		return fmt.Errorf("refused update %+v: %s", op, fmt.Sprintf(format, args...))
+	}
+	c := r.coll()
+	if len(r.m.keys) == 0 {
+		return nil
+	}
+	mk := func() starlark.Value { // a one-entry receiver of the same kind
+		if r.isDict {
+			d := starlark.NewDict(1)
+			d.SetKey(starlark.String("receiver"), starlark.None)
+			return d
+		}
+		s := starlark.NewSet(1)
+		s.Insert(starlark.String("receiver"))
+		return s
+	}
+	var err error
+	what := ""
+	switch op.K % 3 {
+	case 0:
+		what = "frozen.update(c)"
+		f := mk()
+		f.Freeze()
+		_, err = r.method(f, "update", c)
+		if err == nil {
+			return bad("%s succeeded", what)
+		}
+	case 1:
+		what = "for _ in t: t.update(c)"
+		_, err = r.call(helpers["upd_in_loop"], mk(), c)
+		if err == nil {
+			return bad("%s succeeded", what)
+		}
+	case 2:
+		what = "c.update(c)" // adds nothing; whether it is refused is not ours to say
+		_, err = r.method(c, "update", c)
+	}
+	first := r.m.keys[0]
+	if r.isDict {
+		err = r.dict.SetKey(r.keys[first], val(r.m.vals[first]))
+	} else {
+		err = r.set.Insert(r.keys[first])
+	}
+	if err != nil {
+		return bad("after %s the collection refuses to rewrite an existing entry: %v", what, err)
+	}
+	return nil
 }
 
 func (r *runner) call(fn starlark.Value, args ...starlark.Value) (starlark.Value, error) {
@@ -385,6 +442,10 @@ func (r *runner) step(i int, op Op) error {
 			}
 			if v != val(want) {
 				return bad("setdefault returned %v, want %d", v, want)
+			}
+		case "refused":
+			if e := r.refused(op); e != nil {
+				return e
 			}
 		case "update_pairs", "update_dict", "ior", "union":
 			var pairs []starlark.Value
@@ -661,6 +722,10 @@ func (r *runner) step(i int, op Op) error {
 		}
 		if res != starlark.Bool(want) {
 			return bad("%s returned %v, want %v", op.Name, res, want)
+		}
+	case "refused":
+		if e := r.refused(op); e != nil {
+			return e
 		}
 	case "subset-self":
 		// Whole-set comparisons: the operand has as many elements as the receiver (and, for long chains, elements at
@@ -1056,10 +1121,10 @@ func genOp(kind string, nkeys int) *rapid.Generator[Op] {
 		var names []string
 		if kind == "dict" {
 			names = []string{"set", "set", "set", "set", "del", "del", "pop", "popitem", "setdefault", "update_pairs",
-				"update_dict", "ior", "union", "clear", "churn", "set", "del"}
+				"update_dict", "ior", "union", "clear", "churn", "set", "del", "refused"}
 		} else {
 			names = []string{"set", "set", "set", "set", "del", "del", "remove", "pop", "update", "union", "intersection",
-				"difference", "symmetric_difference", "issubset", "issuperset", "proper", "subset-self", "clear", "churn", "set", "del"}
+				"difference", "symmetric_difference", "issubset", "issuperset", "proper", "subset-self", "clear", "churn", "set", "del", "refused"}
 		}
 		op := Op{Name: rapid.SampledFrom(names).Draw(t, "op")}
 		switch op.Name {
@@ -1069,6 +1134,8 @@ func genOp(kind string, nkeys int) *rapid.Generator[Op] {
 			op.Star = rapid.Bool().Draw(t, "star")
 		case "subset-self":
 			op.K = rapid.IntRange(0, 100000).Draw(t, "drop")
+		case "refused":
+			op.K = rapid.IntRange(0, 2).Draw(t, "form")
 		case "del", "remove":
 			op.K = hot.Draw(t, "k")
 			op.Star = rapid.Bool().Draw(t, "star")
